@@ -440,7 +440,7 @@ func init() {
 			must(strings.HasPrefix(n, "cmd"), "unexpected entry "+n)
 			if v, ok := cg.consts[strings.TrimPrefix(n, "cmd")]; ok {
 				must(v == fmt.Sprint(i), fmt.Sprintf("cmds[%d] = %s but commands.%s = %s", i, n, n[3:], v))
-			} else if n != "cmdCommit" { // commands.Commit is spelled the same; all others must exist
+			} else {
 				panic("no command constant for " + n)
 			}
 			fd := g.fn(n)
@@ -495,6 +495,10 @@ func init() {
 
 		// auth.go facts
 		ag := parseGo(filepath.Join(repo, "dbms/auth.go"))
+		asrc, err := os.ReadFile(filepath.Join(repo, "dbms/auth.go"))
+		if err != nil {
+			return err
+		}
 		au := ag.fn("AuthUser")
 		reject := false
 		sawNonce := false
@@ -507,10 +511,7 @@ func init() {
 			if !ok || len(rs.Results) != 1 || srvExprString(rs.Results[0]) != "false" {
 				continue
 			}
-			c := strings.ReplaceAll(string(src[0:0])+func() string {
-				asrc, _ := os.ReadFile(filepath.Join(repo, "dbms/auth.go"))
-				return string(asrc[ag.fset.Position(is.Cond.Pos()).Offset:ag.fset.Position(is.Cond.End()).Offset])
-			}(), " ", "")
+			c := strings.ReplaceAll(string(asrc[ag.fset.Position(is.Cond.Pos()).Offset:ag.fset.Position(is.Cond.End()).Offset]), " ", "")
 			switch c {
 			case `nonce==""`:
 				sawNonce = true
